@@ -323,14 +323,36 @@ func (i *IRCServer) deleteSessionLocked(s *Session, msgid uint64) {
 	s.deleted = true
 }
 
+// sessionExpiration returns the configured session expiration.
+//
+// Lock order: sessionsMu is always acquired before ConfigMu (ProcessMessage
+// holds sessionsMu while the command handlers read, and GLINE writes, the
+// configuration). Code which needs a configuration value before it takes
+// sessionsMu must therefore release ConfigMu first, which these helpers do:
+// holding ConfigMu while waiting for sessionsMu deadlocks with a GLINE that
+// is being processed.
+func (i *IRCServer) sessionExpiration() time.Duration {
+	i.ConfigMu.RLock()
+	defer i.ConfigMu.RUnlock()
+	return time.Duration(i.Config.SessionExpiration)
+}
+
+// postMessageCooloff returns the configured cool-off between messages, see
+// sessionExpiration for why this is a separate function.
+func (i *IRCServer) postMessageCooloff() time.Duration {
+	i.ConfigMu.RLock()
+	defer i.ConfigMu.RUnlock()
+	return time.Duration(i.Config.PostMessageCooloff)
+}
+
 // ExpireSessions returns DeleteSession robust.Messages for all sessions
 // that are older than timeout. These messages are then applied to raft.
 func (i *IRCServer) ExpireSessions() []*robust.Message {
 	var deletes []*robust.Message
 
-	i.ConfigMu.RLock()
-	defer i.ConfigMu.RUnlock()
-	timeout := time.Duration(i.Config.SessionExpiration)
+	// Do not hold ConfigMu while waiting for sessionsMu: messages are processed
+	// with sessionsMu held and take ConfigMu from there (see sessionExpiration).
+	timeout := i.sessionExpiration()
 
 	i.sessionsMu.RLock()
 	defer i.sessionsMu.RUnlock()
@@ -600,9 +622,7 @@ func (i *IRCServer) GetNick(sessionid robust.Id) string {
 
 // ThrottleUntil returns the last activity of |sessionid| or the zero time.
 func (i *IRCServer) ThrottleUntil(sessionid robust.Id) time.Time {
-	i.ConfigMu.RLock()
-	defer i.ConfigMu.RUnlock()
-	cooloff := time.Duration(i.Config.PostMessageCooloff)
+	cooloff := i.postMessageCooloff()
 	if cooloff == 0 {
 		return time.Time{}
 	}
